@@ -29,8 +29,10 @@ BACKENDS = {
     "cms_miniaod": ("func_adl_xAOD.cms.miniaod.local_dataset", "CMSRun2miniAODDataset", None, "Muons", []),
 }
 
+# legal file names a shell would split or expand: blanks, parentheses, '#', '&', '~', a non-ASCII letter
+ODD_NAMES = ("run2 skim.root", "DAOD_PHYS.1234 (1).root", "donn\u00e9es.root", "a#b&c~.root")
 FILE_SHAPES = ["one-path", "one-str", "two-same-dir", "two-diff-dir", "missing-alone", "missing-second", "empty", "three-same-dir-order",
-               "symlink-into-subdir", "two-symlinks-different-subdirs", "symlink-and-plain",
+               "symlink-into-subdir", "two-symlinks-different-subdirs", "symlink-and-plain", "odd-names", "odd-name-single",
                "nested-second", "nested-first", "nested-third", "parent-second"]
 BEHAVIOURS = [("ok", k, None) for k in (0, 1, 2)] + [("no-result", 1, None), ("fail-at-call", 0, None)] + \
              [("fail", k, i) for k in (0, 1, 2) for i in range(0, k + 1)] + \
@@ -66,7 +68,7 @@ def one_case(case):
         d1, d2 = scratch / "d1", scratch / "d2"
         d1.mkdir()
         d2.mkdir()
-        for n in ("a.root", "b.root", "c.root"):
+        for n in ("a.root", "b.root", "c.root") + ODD_NAMES:
             (d1 / n).write_text("x")
         (d2 / "z.root").write_text("x")
         (d1 / "sub").mkdir()
@@ -82,6 +84,7 @@ def one_case(case):
             "nested-third": [d1 / "a.root", d1 / "b.root", d1 / "sub" / "s.root"], "parent-second": [d1 / "sub" / "s.root", d1 / "sub" / ".." / "a.root"],
             "symlink-into-subdir": d1 / "latest.root", "two-symlinks-different-subdirs": [d1 / "latest.root", d1 / "other.root"],
             "symlink-and-plain": [d1 / "a.root", d1 / "latest.root"],
+            "odd-names": [d1 / n for n in ODD_NAMES], "odd-name-single": d1 / ODD_NAMES[0],
             "empty": [], "three-same-dir-order": [str(d1 / "c.root"), str(d1 / "a.root"), str(d1 / "b.root")],
         }[shape]
         outdir = None
@@ -218,7 +221,8 @@ def judge(case, o):
     vols = c["volumes"]
     pkg_dirs = {v[0] for v in vols if v[1].rstrip("/") in ("/scripts", "/results")}
     want_names = {"one-path": ["a.root"], "one-str": ["a.root"], "two-same-dir": ["b.root", "a.root"], "three-same-dir-order": ["c.root", "a.root", "b.root"],
-                  "symlink-into-subdir": ["latest.root"], "two-symlinks-different-subdirs": ["latest.root", "other.root"], "symlink-and-plain": ["a.root", "latest.root"]}[shape]
+                  "symlink-into-subdir": ["latest.root"], "two-symlinks-different-subdirs": ["latest.root", "other.root"], "symlink-and-plain": ["a.root", "latest.root"],
+                  "odd-names": list(ODD_NAMES), "odd-name-single": [ODD_NAMES[0]]}[shape]
 
     def has(mount, mode=None, src=None):
         for v in vols:
@@ -293,7 +297,7 @@ def main(tier="quick"):
                                     if not tinit and beh != ("ok", 1, None):
                                         continue
                                     if shape in ("missing-alone", "missing-second", "empty", "nested-second", "nested-first", "nested-third", "parent-second",
-                                                 "symlink-into-subdir", "two-symlinks-different-subdirs", "symlink-and-plain") and beh != ("ok", 1, None):
+                                                 "symlink-into-subdir", "two-symlinks-different-subdirs", "symlink-and-plain", "odd-names", "odd-name-single") and beh != ("ok", 1, None):
                                         continue
                                 cases.append((backend, shape, image_mode, md_pos, outdir_mode, beh, tinit))
                                 # the same case after an earlier successful execution into the same output directory
